@@ -164,3 +164,85 @@ def gen_arma_estimate(rng, n, nimpl):
                     c.add_impl('ir_close %s (qrun prog_arma_estimate %s) %s' % (tolq(1e-9 * kap * sc), args, L.outs(a, b, rho)),
                                x=vlib.hexv(x), P=P, Q=Q, lag=lag, kind=kind)
     return c
+
+
+# ================================================================================================ lpc
+def gen_lpc(rng, n, nimpl, nflt):
+    """lpc: exact cases only where exact twiddle characters exist (transform lengths 1, 2, 4: len(x) after the resize <= 2); binary64 cases
+    (twiddle table from the harness) for general lengths against BOTH Model.Yule.lpc and the implementation (tolerance of C12's correspondence)"""
+    import cmath, math
+    from props import _loopir as L
+    from props import _loopir_vec as V
+    from spectrum.lpc import lpc
+    from vlib import fl, fc, fcl
+    c = L.Cases('lpc')
+    i = 0
+    combos = [(1, None), (1, 0), (1, 1), (2, None), (2, 0), (2, 1), (2, None), (2, 1)]
+    while len(c.exact) < n:
+        m, Narg = combos[i % len(combos)]; i += 1
+        cplx = bool(rng.integers(0, 3) == 0)
+        x = L.lowbit(rng, m, cplx, bits=3) / float(rng.choice([1, 2, 4]))
+        if i % 11 == 0 and m == 2:
+            x = np.array([x[0], x[0]])                         # r1 = r0: P = 0 at stage 1 (ValueError of LEVINSON when N >= 1)
+        res = None
+        if m > 1:
+            with np.errstate(all='ignore'):
+                res = L.call_impl(lpc, np.array(x if cplx else np.real(x)), Narg)
+        nt = 'None' if Narg is None else '(Some %d%%nat)' % Narg
+        for tag in ([False] if cplx else [True, False]):
+            c.add('q_lpc prog_lpc %s %s %s' % ('true' if tag else 'false', czl(x), nt), impl=res, x=vlib.hexv(x), N=Narg, declared_real=tag,
+                  kind='m=%d' % m)
+        if len(c.impl) < nimpl and m == 2 and res is not None:
+            out, ex = res
+            args = '[%s; %s; Tw]' % (L.A_(not cplx, x), 'Omit' if Narg is None else L.I_(Narg))
+            if ex is not None:
+                if ex == 'ValueError' and not any(mm.get('impl_raised') for mm in c.impl_meta) and i % 11 == 0:
+                    c.add_impl('ir_raises (qrun prog_lpc %s) %s' % (args, ex), x=vlib.hexv(x), N=Narg, impl_raised=ex)
+            else:
+                a, e = out
+                if np.all(np.isfinite(a)) and np.isfinite(e) and abs(e) > 1e-6:
+                    r0 = float(np.sum(np.abs(x) ** 2)); kap = max(1.0, r0 / abs(e), float(np.max(np.abs(a))) if len(a) else 1.0)
+                    if kap < 1e4:
+                        c.add_impl('ir_close %s (qrun prog_lpc %s) %s' % (tolq(1e-9 * kap), args, L.outs(a, e)), x=vlib.hexv(x), N=Narg)
+    tries = 0
+    while len(c.flt) < nflt and tries < 40 * nflt + 40:
+        tries += 1
+        cplx = bool(rng.integers(0, 4) == 0)
+        m = int(rng.integers(2, 25))
+        mode = str(rng.choice(['none', 'le', 'le', 'gt']))
+        if mode == 'none':
+            Narg = None; p = m - 1
+            if p > 9:
+                continue
+        elif mode == 'le':
+            p = int(rng.integers(0, min(m, 8))); Narg = p
+        else:
+            p = m + int(rng.integers(0, 3)); Narg = p
+            if p > 8:
+                continue
+        style = str(rng.choice(['int', 'noise', 'tone']))
+        if style == 'int':
+            x = L.lowbit(rng, m, cplx, bits=3)
+        elif style == 'noise':
+            x = rng.standard_normal(m) + (1j * rng.standard_normal(m) if cplx else 0)
+        else:
+            t = np.arange(m); x = np.cos(0.9 * t + 0.3) + 0.5 * rng.standard_normal(m) + (0.25j * rng.standard_normal(m) if cplx else 0)
+        x = np.asarray(x, dtype=complex if cplx else float)
+        Lx = max(m, p + 1) if Narg is not None else m
+        nfft = 1 << int(math.ceil(math.log2(2 * Lx - 1))) if 2 * Lx - 1 > 1 else 1
+        with np.errstate(all='ignore'):
+            out, ex = L.call_impl(lpc, np.array(x), Narg)
+        if ex is not None:
+            continue                                           # numpy refuses the in-place resize / singular: not compared at binary64
+        a, e = out
+        if not (np.all(np.isfinite(a)) and np.isfinite(e)) or e == 0:
+            continue
+        r0 = float(np.sum(np.abs(x) ** 2)) / (m - 1.0)
+        kap = max(1.0, r0 / max(abs(e), 1e-300), float(np.max(np.abs(a))) if len(a) else 1.0)
+        if kap > 1e4:
+            continue
+        tbl = [cmath.exp(-2j * math.pi * j / nfft) for j in range(nfft)]
+        c.add_flt('f_lpc %s %s %s %s prog_lpc %s %s %s None %s %s' % (
+            fl(1e-8 * kap), fl(1e-8 * kap), fl(1.0), fcl(tbl), 'false' if cplx else 'true', fcl(x), 'None' if Narg is None else '(Some %d%%nat)' % Narg,
+            fcl(a), fc(e)), x=vlib.hexv(x), N=Narg, nfft=nfft, kind=mode + '/' + style)
+    return c
